@@ -417,6 +417,33 @@ func corrupt(rng *rand.Rand, text []byte) []byte {
 		}
 	}
 	res := []byte(strings.Join(lines, "\n"))
+	if rng.Intn(6) == 0 && len(res) > 0 {
+		// non-ASCII: Unicode white space as a separator (strings.Fields splits on it), letters
+		// whose lower case is ASCII (U+0130, U+212A), other letters and digits, invalid UTF-8,
+		// NUL — inside fields, between fields, in comments and metadata lines
+		uni := []string{"\u0085", "\u00a0", "\u1680", "\u2000", "\u2003", "\u2028", "\u2029", "\u202f", "\u205f", "\u3000",
+			"\u0130", "\u212a", "\u017f", "é", "λ", "٣", "１", "\x80", "\xc3", "\xe2\x80", "\xed\xa0\x80", "\xf4\x90\x80\x80", "\xc0\xaf", "\xff", "\x00"}
+		for k := 1 + rng.Intn(2); k > 0; k-- {
+			u := uni[rng.Intn(len(uni))]
+			i := rng.Intn(len(res) + 1)
+			switch rng.Intn(3) {
+			case 0: // replace a blank by it
+				for j := 0; j < len(res); j++ {
+					if res[(i+j)%len(res)] == ' ' {
+						p := (i + j) % len(res)
+						res = append(res[:p], append([]byte(u), res[p+1:]...)...)
+						break
+					}
+				}
+			default: // insert it anywhere
+				res = append(res[:i], append([]byte(u), res[i:]...)...)
+			}
+		}
+		if rng.Intn(3) == 0 {
+			meta := []string{";name caf\xc3\xa9 \u00a0", ";author \xff\xfe", ";strategy\xc3\xa9 cut", ";strategy \u2003x", ";name\u0085", ";NAME \u0130"}[rng.Intn(6)]
+			res = append([]byte(meta+"\n"), res...)
+		}
+	}
 	if rng.Intn(5) == 0 && len(res) > 0 { // truncation at any byte
 		res = res[:rng.Intn(len(res)+1)]
 	}
